@@ -549,6 +549,76 @@ class Extractor:
         body = sf.src[toks[it.body_open].start:toks[it.t1].end]
         return sig, body, sf.line_of(toks[it.body_open].start), sf.line_of(toks[it.t0].start)
 
+    def _param_patterns(self, sig, body, drops, where):
+        """A11: a parameter declared with a tuple pattern, `(a, b): &(A, B)`, becomes `arg__k: &(A, B)` with
+        `let (a, b) = arg__k;` as the first statement of the body (what rustc does; the verus! macro wants identifiers)."""
+        toks = lex(sig)
+        try:
+            k = next(i for i, t in enumerate(toks) if t.kind == 'ident' and t.text == 'fn')
+        except StopIteration:
+            return sig, body
+        k += 2
+        if k < len(toks) and toks[k].text == '<':
+            depth = 0
+            while True:
+                tx = toks[k].text
+                if tx == '<':
+                    depth += 1
+                elif tx == '>':
+                    depth -= 1
+                elif tx == '>>':
+                    depth -= 2
+                if tx in '([{':
+                    k = match_close(toks, k)
+                k += 1
+                if depth <= 0:
+                    break
+        if k >= len(toks) or toks[k].text != '(':
+            return sig, body
+        close = match_close(toks, k)
+        # split params at depth-0 commas
+        params = []
+        start = k + 1
+        j = k + 1
+        depth_angle = 0
+        while j < close:
+            tx = toks[j].text
+            if tx in ('(', '[', '{'):
+                j = match_close(toks, j)
+            elif tx == '<':
+                depth_angle += 1
+            elif tx == '>':
+                depth_angle -= 1
+            elif tx == ',' and depth_angle == 0:
+                params.append((start, j))
+                start = j + 1
+            j += 1
+        if start < close:
+            params.append((start, close))
+        lets = []
+        edits = []
+        n = 0
+        for a, b in params:
+            if toks[a].text == '(':
+                pe = match_close(toks, a)
+                if pe + 1 < b and toks[pe + 1].text == ':':
+                    pat = sig[toks[a].start:toks[pe].end]
+                    name = 'arg__%d' % n
+                    n += 1
+                    edits.append((toks[a].start, toks[pe].end, name))
+                    lets.append('let %s = %s;' % (' '.join(pat.split()), name))
+        if not edits:
+            return sig, body
+        for s0, s1, name in reversed(edits):
+            # keep line structure of the signature: pad with the same number of newlines
+            nl = sig[s0:s1].count('\n')
+            sig = sig[:s0] + name + '\n' * nl + sig[s1:]
+        btoks = lex(body)
+        ins = btoks[0].end
+        body = body[:ins] + ' ' + ' '.join(lets) + body[ins:]
+        drops.append('A11 tuple-pattern parameter(s) of %s bound by `let` at the start of the body: %s' % (where, lets))
+        return sig, body
+
     def _name_ret(self, sig, ret):
         """A5: `-> T` becomes `-> (ret: T)`."""
         toks = lex(sig)
@@ -833,6 +903,8 @@ class Extractor:
             body = self._clean_body(body, res.drops, where)
             body = self._desugar(body, fs, where, res.drops)
             body = self._eta(body, fs, where, res.drops)
+        if not fs.external_body:
+            sig, body = self._param_patterns(sig, body, res.drops, where)
         if fs.ret:
             sig = self._name_ret(sig, fs.ret)
         start = out.lineno
